@@ -43,8 +43,8 @@ def main():
         "version": 1,
         "setup_cmd": "python3 tools/check.py --setup",
         "hooks": {
-            "guard": "verif (Go build tag) + go test -overlay /verif/build/overlay.json; harness sources stay in /verif/harness/go, nothing is added to /repo",
-            "enable": "cd /repo && GOPROXY=off GOFLAGS=-mod=mod go test -c -tags verif -vet=off -overlay /verif/build/overlay.json -o /verif/build/pfcpiface.test ./pfcpiface",
+            "guard": "verif (Go build tag) + go test -overlay /verif/build/overlay.<property>.json (written by tools/lib.py for each check from its subset of /verif/harness/go/*_test.go); harness sources stay in /verif/harness/go, nothing is added to /repo",
+            "enable": "cd /repo && GOPROXY=off GOFLAGS=-mod=mod go test -c -tags verif -vet=off -overlay /verif/build/overlay.<property>.json -o /verif/build/pfcpiface.<property>.test ./pfcpiface   (done by every check itself: lib.build_harness)",
             "baseline_off_cmd": "cd /repo && GOPROXY=off GOFLAGS=-mod=mod go test -vet=off -count=1 ./cmd/... ./internal/... ./pfcpiface/... ./pkg/...",
             "source_commits": [],
             "add_only": True,
